@@ -533,7 +533,7 @@ type c44ReqWit struct {
 
 func c44Handler(t *testing.T, r *vkit.Run) {
 	ctx := context.Background()
-	n := r.N(300, 10000)
+	n := r.N(1200, 10000)
 	for hno := 0; hno < n; hno++ {
 		rg := r.SubRand("handler", hno)
 		st := gkvNewStore(t)
